@@ -571,8 +571,14 @@ class DomainLowerer(FragmentTransformer, ValueTransformer, StatementTransformer)
         return domain.rst
 
     def on_fragment(self, fragment):
+        # Subfragments are visited before the statements of this fragment; restore the domains of
+        # this fragment afterwards, since a subfragment may define a domain with the same name.
+        outer_domains = self.domains
         self.domains = fragment.domains
-        return super().on_fragment(fragment)
+        try:
+            return super().on_fragment(fragment)
+        finally:
+            self.domains = outer_domains
 
 
 class LHSMaskCollector:
